@@ -258,7 +258,7 @@ func runC04(c c04Case) (r pbt.Result) {
 		// known finding F13: in soft mode a stalled transport blocks later calls behind the cancel packet;
 		// excluded either by letting the transport accept (never deliver) client bytes, or by keeping it
 		// fully frozen and not issuing later calls (the ones in flight must return all the same).
-		if c.NoAccept && !c.Second && len(atPoint) == 0 {
+		if c.NoAccept && len(atPoint) == 0 {
 			// (a call held at a scheduling point before it takes its lock behaves like a later call: F13 again)
 			skipLate = true
 			r.Excluded = "F13"
